@@ -4,6 +4,9 @@
   `processStats` is the one handler that READS `World.cmdCounts` — in the branch `stat = 'm'`
   (no target server, the acting user a local operator).  Its lemma carries the hypothesis
   `stat ≠ 'm'`.
+
+  `modeChar` (a chain of 17 letter tests) is done letter by letter (`modeChar_bc_b`, …) and
+  assembled by case distinction: one proof over the whole chain takes the kernel a minute.
 -/
 import Irc.Props.C18CountersLemmas3
 
@@ -121,17 +124,156 @@ theorem ite_uacc {p : Prop} [Decidable p] {A B A' B' : UModeAcc} (hA : A' = A.bc
   subst hA hB; split <;> rfl
 macro_rules | `(tactic| bc_hook) => `(tactic| with_reducible apply ite_uacc)
 
-@[bc_push] theorem modeChar_bc (cn' : Conn) (target : Str) (chum : ChanUserModes) (a : ModeAcc)
-    (m : Char) :
-    modeChar cfg cn' target chum (a.bc i) m = (modeChar cfg cn' target chum a m).bc i := by
+
+/-- `modeChar` for one given mode letter: the chain of letter tests collapses -/
+macro "mc_collapse" : tactic =>
+  `(tactic| (
+    unfold modeChar
+    simp only [bc_read, Char.reduceEq, ↓reduceIte, Bool.or_false, Bool.false_or, Bool.or_true,
+      Bool.true_or, Bool.false_and, Bool.true_and, decide_false, decide_true, Bool.false_eq_true]))
+
+/-- a letter without privilege pre-check -/
+macro "mc_letter" : tactic => `(tactic| (mc_collapse; bcf))
+
+/-- a letter with privilege pre-check (`err482` first, if the actor may not change it) -/
+macro "mc_letter_pre" c:term:max l:term:max : tactic =>
+  `(tactic| (mc_collapse; generalize (!mayChange $c $l) = b; cases b <;> bcf))
+
+section
+variable (cn' : Conn) (target : Str) (chum : ChanUserModes) (a : ModeAcc)
+
+theorem modeChar_bc_plus :
+    modeChar cfg cn' target chum (a.bc i) '+' = (modeChar cfg cn' target chum a '+').bc i := by
+  mc_letter
+
+theorem modeChar_bc_minus :
+    modeChar cfg cn' target chum (a.bc i) '-' = (modeChar cfg cn' target chum a '-').bc i := by
+  mc_letter
+
+theorem modeChar_bc_b :
+    modeChar cfg cn' target chum (a.bc i) 'b' = (modeChar cfg cn' target chum a 'b').bc i := by
+  mc_letter
+
+theorem modeChar_bc_e :
+    modeChar cfg cn' target chum (a.bc i) 'e' = (modeChar cfg cn' target chum a 'e').bc i := by
+  mc_letter
+
+theorem modeChar_bc_I :
+    modeChar cfg cn' target chum (a.bc i) 'I' = (modeChar cfg cn' target chum a 'I').bc i := by
+  mc_letter
+
+theorem modeChar_bc_o :
+    modeChar cfg cn' target chum (a.bc i) 'o' = (modeChar cfg cn' target chum a 'o').bc i := by
+  mc_letter_pre chum 'o'
+
+theorem modeChar_bc_v :
+    modeChar cfg cn' target chum (a.bc i) 'v' = (modeChar cfg cn' target chum a 'v').bc i := by
+  mc_letter_pre chum 'v'
+
+theorem modeChar_bc_h :
+    modeChar cfg cn' target chum (a.bc i) 'h' = (modeChar cfg cn' target chum a 'h').bc i := by
+  mc_letter_pre chum 'h'
+
+theorem modeChar_bc_q :
+    modeChar cfg cn' target chum (a.bc i) 'q' = (modeChar cfg cn' target chum a 'q').bc i := by
+  mc_letter_pre chum 'q'
+
+theorem modeChar_bc_a :
+    modeChar cfg cn' target chum (a.bc i) 'a' = (modeChar cfg cn' target chum a 'a').bc i := by
+  mc_letter_pre chum 'a'
+
+theorem modeChar_bc_l :
+    modeChar cfg cn' target chum (a.bc i) 'l' = (modeChar cfg cn' target chum a 'l').bc i := by
+  mc_letter_pre chum 'l'
+
+theorem modeChar_bc_k :
+    modeChar cfg cn' target chum (a.bc i) 'k' = (modeChar cfg cn' target chum a 'k').bc i := by
+  mc_letter_pre chum 'k'
+
+theorem modeChar_bc_i :
+    modeChar cfg cn' target chum (a.bc i) 'i' = (modeChar cfg cn' target chum a 'i').bc i := by
+  mc_letter_pre chum 'i'
+
+theorem modeChar_bc_m :
+    modeChar cfg cn' target chum (a.bc i) 'm' = (modeChar cfg cn' target chum a 'm').bc i := by
+  mc_letter_pre chum 'm'
+
+theorem modeChar_bc_t :
+    modeChar cfg cn' target chum (a.bc i) 't' = (modeChar cfg cn' target chum a 't').bc i := by
+  mc_letter_pre chum 't'
+
+theorem modeChar_bc_n :
+    modeChar cfg cn' target chum (a.bc i) 'n' = (modeChar cfg cn' target chum a 'n').bc i := by
+  mc_letter_pre chum 'n'
+
+theorem modeChar_bc_s :
+    modeChar cfg cn' target chum (a.bc i) 's' = (modeChar cfg cn' target chum a 's').bc i := by
+  mc_letter_pre chum 's'
+
+/-- any other character: nothing happens -/
+theorem modeChar_bc_other (m : Char)
+    (h0 : m ≠ '+')
+    (h1 : m ≠ '-')
+    (h2 : m ≠ 'b')
+    (h3 : m ≠ 'e')
+    (h4 : m ≠ 'I')
+    (h5 : m ≠ 'o')
+    (h6 : m ≠ 'v')
+    (h7 : m ≠ 'h')
+    (h8 : m ≠ 'q')
+    (h9 : m ≠ 'a')
+    (h10 : m ≠ 'l')
+    (h11 : m ≠ 'k')
+    (h12 : m ≠ 'i')
+    (h13 : m ≠ 'm')
+    (h14 : m ≠ 't')
+    (h15 : m ≠ 'n')
+    (h16 : m ≠ 's')
+    : modeChar cfg cn' target chum (a.bc i) m = (modeChar cfg cn' target chum a m).bc i := by
   unfold modeChar
-  simp only [bc_read]
-  generalize ((_ : Bool) && !mayChange chum m) = b
-  cases b
-  · simp only [Bool.false_eq_true, ↓reduceIte]
-    bcf
-  · simp only [↓reduceIte]
-    bcf
+  simp only [bc_read, ne_eq] at *
+  simp only [*, ↓reduceIte, Bool.or_false, Bool.false_and, decide_false, Bool.false_eq_true]
+  bcf
+
+@[bc_push] theorem modeChar_bc (m : Char) :
+    modeChar cfg cn' target chum (a.bc i) m = (modeChar cfg cn' target chum a m).bc i := by
+  by_cases h0 : m = '+'
+  · subst h0; exact modeChar_bc_plus cn' target chum a
+  by_cases h1 : m = '-'
+  · subst h1; exact modeChar_bc_minus cn' target chum a
+  by_cases h2 : m = 'b'
+  · subst h2; exact modeChar_bc_b cn' target chum a
+  by_cases h3 : m = 'e'
+  · subst h3; exact modeChar_bc_e cn' target chum a
+  by_cases h4 : m = 'I'
+  · subst h4; exact modeChar_bc_I cn' target chum a
+  by_cases h5 : m = 'o'
+  · subst h5; exact modeChar_bc_o cn' target chum a
+  by_cases h6 : m = 'v'
+  · subst h6; exact modeChar_bc_v cn' target chum a
+  by_cases h7 : m = 'h'
+  · subst h7; exact modeChar_bc_h cn' target chum a
+  by_cases h8 : m = 'q'
+  · subst h8; exact modeChar_bc_q cn' target chum a
+  by_cases h9 : m = 'a'
+  · subst h9; exact modeChar_bc_a cn' target chum a
+  by_cases h10 : m = 'l'
+  · subst h10; exact modeChar_bc_l cn' target chum a
+  by_cases h11 : m = 'k'
+  · subst h11; exact modeChar_bc_k cn' target chum a
+  by_cases h12 : m = 'i'
+  · subst h12; exact modeChar_bc_i cn' target chum a
+  by_cases h13 : m = 'm'
+  · subst h13; exact modeChar_bc_m cn' target chum a
+  by_cases h14 : m = 't'
+  · subst h14; exact modeChar_bc_t cn' target chum a
+  by_cases h15 : m = 'n'
+  · subst h15; exact modeChar_bc_n cn' target chum a
+  by_cases h16 : m = 's'
+  · subst h16; exact modeChar_bc_s cn' target chum a
+  exact modeChar_bc_other cn' target chum a m h0 h1 h2 h3 h4 h5 h6 h7 h8 h9 h10 h11 h12 h13 h14 h15 h16
+
+end
 
 @[bc_push] theorem modeGroup_bc (cn' : Conn) (target : Str) (chum : ChanUserModes) (a : ModeAcc)
     (g : Str × List Str) :
